@@ -107,7 +107,7 @@ pub fn bad(w: &mut RouterWorld, cfg: &Cfg, ci: usize, kind: u8) {
     w.send(ci, txs);
 }
 
-pub const BATCH_KINDS: u8 = 9;
+pub const BATCH_KINDS: u8 = 10;
 
 pub fn batch(w: &mut RouterWorld, cfg: &Cfg, ci: usize, kind: u8) {
     let f0 = cfg.filters.first().cloned().unwrap_or_else(|| "a/b".into());
@@ -152,6 +152,11 @@ pub fn batch(w: &mut RouterWorld, cfg: &Cfg, ci: usize, kind: u8) {
         7 => {
             let a = make_publish(w, cfg, ci, 0, 1, false, false, 0);
             vec![a, Tx::Disconnect]
+        }
+        8 => {
+            // the connection is closed for the unsolicited ack: the DISCONNECT behind it is
+            // never looked at (a registered will has to fire)
+            vec![Tx::PubAck(999), Tx::Disconnect]
         }
         _ => {
             let pkid = next_pkid(w, ci);
